@@ -57,7 +57,7 @@ class C06(Check):
     expected_probes = ["levels_compared", "loud_failure", "half_chunk_eq_1",
                       "eighth_octant", "pair_class", "required_completion",
                       "anisotropic", "border_chunk_odd", "sharded_layout",
-                      "np_empty_poisoned"]
+                      "np_empty_poisoned", "single_chunk_exception_path"]
 
     def setup_worker(self):
         from sim import simenv, simfs, simproc
@@ -93,6 +93,21 @@ class C06(Check):
             rng.shuffle(res)
             size = [rng.choice([12, 20, 24, 33, 40]) for _ in range(3)]
             cls = rng.choice(["pair", "pair", "pyramid"])
+        thin = rng.random() < 0.12
+        if thin:
+            # thin, strongly anisotropic volumes: a whole axis fits in one new
+            # chunk that is wider than two downscaled old chunks would need
+            # (the "single chunk" exception of the chunk-size relation)
+            perm = [0, 1, 2]
+            rng.shuffle(perm)
+            res = [0.0, 0.0, 0.0]
+            size = [0, 0, 0]
+            res[perm[0]], size[perm[0]] = 1.0, rng.choice([17, 33, 40])
+            res[perm[1]], size[perm[1]] = 4.0, rng.choice([3, 4, 5, 6])
+            res[perm[2]], size[perm[2]] = 16.0, rng.choice([2, 3, 4, 9])
+            if rng.random() < 0.3:
+                res[perm[2]] = 12.0
+            cls = "pair"
         scale = rng.choice([1.0, 1.0, 10.0, 1000.0, 0.5])
         res = [v * scale for v in res]
         method = rng.choice(["average", "average", "majority", "stride"])
@@ -107,6 +122,8 @@ class C06(Check):
         target = rng.choice([1, 2, 2, 4, 4, 8, 16])
         if max(res) / min(res) >= 4 and rng.random() < 0.7:
             target = rng.choice([2, 4, 4, 4])
+        if thin:
+            target = 4
         cap = {1: 10, 2: 20}.get(target)
         if cap:
             size = [min(v, cap) for v in size]
@@ -235,6 +252,9 @@ class C06(Check):
                 hc = oc // f[d]
                 if nc not in (hc, 2 * hc):
                     ok = False
+                    ns_ = b["size"][d]
+                    if nc >= ns_ and hc < ns_ <= 2 * hc:
+                        res.probe("single_chunk_exception_path")
                 if hc == 1:
                     res.probe("half_chunk_eq_1")
             required.append(ok)
